@@ -4,22 +4,38 @@ use crate::mutate::{self, Mutation};
 use crate::seeds::{self, pkt};
 use serde::{Deserialize, Serialize};
 use std::collections::BTreeMap;
-use vkit::{bad, ok, ok_trivial, Run, Verdict, B};
+use std::sync::atomic::{AtomicU64, Ordering};
+use std::sync::Mutex;
+use vkit::{ok, ok_trivial, Run, Verdict, B};
 
 const H: &[u8] = b"4b825dc642cb6eb9a060e54bf8d69288fbee4904";
 const SIG: &[u8] = b"a <b> 1 +0000";
 
+/// A block of inputs: `prefix` followed by every concatenation of 0..=tail tokens of the entry point's alphabet.
+/// (tail = 0: exactly the one input `prefix`; that form is used for violations so a replay runs one input.)
 #[derive(Serialize, Deserialize, Hash, Clone, Debug)]
 struct AlphaCase {
-    input: B,
+    prefix: B,
+    tail: usize,
 }
 
+/// A block of mutations of one seed: every mutation of `kind` at offsets from..to (all values, or only `value`).
 #[derive(Serialize, Deserialize, Hash, Clone, Debug)]
 struct MutCase {
     seed: String,
     /// hash of the seed bytes the case was generated from (replay refuses to run on a different seed)
     seed_hash: String,
-    m: Mutation,
+    kind: Kind,
+    from: usize,
+    to: usize,
+    value: Option<u32>,
+}
+#[derive(Serialize, Deserialize, Hash, Clone, Copy, Debug, PartialEq, Eq)]
+enum Kind {
+    Seed,
+    Trunc,
+    Byte,
+    U32,
 }
 
 /// How the raw enumerated string is turned into decoder input.
@@ -404,41 +420,143 @@ fn wrap(w: Wrap, s: &[u8]) -> Vec<u8> {
     }
 }
 
-/// run one input through a driver; flags allocation bombs that did not abort the process
-fn evaluate(ep_name: &str, drive: Driver, input: &[u8], ctx: &Ctx, mutated: bool) -> Verdict {
-    crate::alloc::reset();
-    let class = drive(input, ctx);
-    let peak = crate::alloc::max_request();
-    if peak >= crate::alloc::FLAG {
-        return bad("alloc-bomb", format!("{ep_name}: a single allocation of {peak} bytes was requested for an input of {} bytes", input.len()));
+#[derive(Default)]
+struct Stats {
+    inputs: AtomicU64,
+    accepted: AtomicU64,
+    classes: Mutex<BTreeMap<&'static str, u64>>,
+}
+
+/// run one input through a driver under catch_unwind; flags allocation bombs that did not abort the process.
+/// Ok(class) or Err(violation message starting with its class)
+fn evaluate(ep: &Ep, input: &[u8], ctx: &Ctx, announce: bool) -> Result<&'static str, String> {
+    if announce {
+        // replay mode: name the input before touching it, so a hang / abort is attributable from the log
+        eprintln!("C06 {} input ({} bytes): {}", ep.name, input.len(), vkit::bytes::escape(&input[..input.len().min(400)]));
     }
-    let class = format!("{ep_name}:{class}");
-    // non-trivial = the decoder accepted the input (its value was walked), or the input is a mutation of a valid encoding
-    if class.contains(":ok") || mutated {
-        ok(class)
-    } else {
-        ok_trivial(class)
+    crate::alloc::reset();
+    let r = vkit::catch(|| (ep.drive)(input, ctx));
+    let peak = crate::alloc::max_request();
+    match r {
+        Err(p) => Err(format!("panic: {} on input ({} bytes) {}: {p}", ep.name, input.len(), vkit::bytes::escape(&input[..input.len().min(300)]))),
+        Ok(_) if peak >= crate::alloc::FLAG => {
+            Err(format!("alloc-bomb: {}: a single allocation of {peak} bytes was requested for an input of {} bytes", ep.name, input.len()))
+        }
+        Ok(class) => Ok(class),
     }
 }
+
+/// Evaluate a block of inputs produced by `each`. Single-input blocks return their verdict directly (replayable);
+/// in larger blocks every failing input is recorded as its own single-input violation via `single`.
+fn run_block<C: Serialize>(
+    run: &Run,
+    sub: &str,
+    ep: &Ep,
+    ctx: &Ctx,
+    stats: &Stats,
+    mutated: bool,
+    each: &mut dyn FnMut(&mut dyn FnMut(&[u8], &dyn Fn() -> C)),
+) -> Verdict {
+    let mut local: BTreeMap<&'static str, u64> = BTreeMap::new();
+    let mut n = 0u64;
+    let mut accepted = 0u64;
+    let mut failures: Vec<(C, String)> = Vec::new();
+    each(&mut |input, single| {
+        n += 1;
+        match evaluate(ep, input, ctx, run.is_replay()) {
+            Ok(class) => {
+                if class.starts_with("ok") {
+                    accepted += 1;
+                }
+                *local.entry(class).or_default() += 1;
+            }
+            Err(msg) => failures.push((single(), msg)),
+        }
+    });
+    stats.inputs.fetch_add(n, Ordering::Relaxed);
+    stats.accepted.fetch_add(accepted, Ordering::Relaxed);
+    {
+        let mut g = stats.classes.lock().unwrap();
+        for (k, v) in local {
+            *g.entry(k).or_default() += v;
+        }
+    }
+    if n == 1 {
+        if let Some((_, msg)) = failures.pop() {
+            return Err(msg);
+        }
+    } else {
+        for (case, msg) in failures {
+            run.violation(sub, case, msg);
+        }
+    }
+    // non-trivial = some decoder accepted an input of the block (its value was walked), or the inputs are mutations of a valid encoding
+    if accepted > 0 {
+        ok(format!("{}:accepted-some", ep.name))
+    } else if mutated {
+        ok(format!("{}:mutations-all-rejected", ep.name))
+    } else {
+        ok_trivial(format!("{}:rejected-all", ep.name))
+    }
+}
+
+fn mutations_of(seed: &[u8], c: &MutCase, mut f: impl FnMut(Mutation)) {
+    match c.kind {
+        Kind::Seed => f(Mutation::None),
+        Kind::Trunc => (c.from..c.to.min(seed.len())).for_each(|n| f(Mutation::Trunc(n))),
+        Kind::Byte => {
+            for at in c.from..c.to.min(seed.len()) {
+                let b = seed[at];
+                let mut vals: Vec<u8> = Vec::new();
+                for v in [0x00u8, 0xff, b ^ 0x01, b ^ 0x80] {
+                    if v != b && !vals.contains(&v) {
+                        vals.push(v)
+                    }
+                }
+                for v in vals {
+                    if c.value.map_or(true, |only| only == u32::from(v)) {
+                        f(Mutation::Byte(at, v));
+                    }
+                }
+            }
+        }
+        Kind::U32 => {
+            for at in c.from..c.to {
+                if at + 4 > seed.len() {
+                    break;
+                }
+                let cur = u32::from_be_bytes(seed[at..at + 4].try_into().unwrap());
+                for v in [0u32, 1, 0x7fff_ffff, 0xffff_ffff] {
+                    if v != cur && c.value.map_or(true, |only| only == v) {
+                        f(Mutation::U32(at, v));
+                    }
+                }
+            }
+        }
+    }
+}
+
+const MUT_BLOCK: usize = 64;
 
 pub fn run(run: &'static Run) {
     let eps = entry_points();
     let only: Option<Vec<String>> = std::env::var("C06_ONLY").ok().map(|s| s.split(',').map(str::to_string).collect());
     run.rule(
-        "per entry point (one sub-check each): (a) every concatenation of <= L tokens of a per-format token alphabet (L = quick/thorough, listed in coverage key `alphabets`); \
+        "per entry point (one sub-check each, `<name>` = token strings, `<name>~seeds` = mutations): (a) every concatenation of <= L tokens of a per-format token alphabet (L = quick/thorough, see coverage key `alphabets`); \
          (b) for every git-produced valid seed of the format: the seed itself, truncation at every offset, every byte set to 0x00 / 0xff / ^0x01 / ^0x80, \
-         every 32-bit big-endian field at every offset set to 0 / 1 / 0x7fffffff / 0xffffffff. Oracle: decoder + walk of the decoded value returns within 5 s without panic/abort; \
-         a single allocation request >= 64 MiB is flagged, >= 1 GiB is refused (abort, attributed by the driver). \
-         non-trivial = decoder accepted the input, or the input is a mutation of a valid encoding (reaches deep decoder states)",
+         every 32-bit big-endian field at every byte offset set to 0 / 1 / 0x7fffffff / 0xffffffff. Oracle: decoder + walk of the decoded value returns without panic/abort; a block of <= 4096 inputs must finish within 5 s; \
+         a single allocation request >= 64 MiB is flagged, >= 1 GiB is refused (abort, attributed by the driver). One vkit case = one block of inputs (prefix + all short tails / 64 offsets of one mutation kind); \
+         per-input counts are in coverage keys `inputs`, `inputs_accepted`, `input_outcomes`. \
+         non-trivial block = a decoder accepted at least one input, or the inputs are mutations of a valid encoding (reach deep decoder states)",
     );
     run.assume("git 2.39.5 writes the seed corpus (index v2/v3/v4 + TREE/REUC/UNTR/EOIE/IEOT/link/sdir, commit-graph incl. bloom/EDGE/BASE, multi-pack-index, pack idx v1/v2, pack bitmap, packed-refs, reflog, objects, upload-pack output)");
     run.assume("Ok on garbage is fine; semantic correctness is decided by other properties");
     run.assume("pack .idx: only File::at and header accessors (not listed in the property; lazily validated by verify_integrity); data::Entry::from_bytes excluded (documented to panic), from_read driven instead");
-    run.budget_secs(run.pick(38.0, 840.0));
+    run.budget_secs(std::env::var("C06_BUDGET").ok().and_then(|s| s.parse().ok()).unwrap_or(run.pick(38.0, 840.0)));
 
     // ---- seeds (built in every mode: a replayed mutation case needs its seed) ----
     let root = vkit::scratch::Dir::new("c06seeds");
-    let corpus = seeds::build(root.path());
+    let corpus = seeds::build(root.path(), run.quick());
     let files = vkit::scratch::Dir::new("c06files");
     if let Some((name, bytes)) = &corpus.shared_index {
         if let Err(e) = std::fs::write(files.join(name), bytes) {
@@ -452,8 +570,13 @@ pub fn run(run: &'static Run) {
     }
     run.cov("seeds_bytes", &seed_info);
     let mut alpha_info = BTreeMap::new();
+    let mut inputs_info: BTreeMap<String, u64> = BTreeMap::new();
+    let mut accepted_info: BTreeMap<String, u64> = BTreeMap::new();
+    let mut outcome_info: BTreeMap<String, BTreeMap<&'static str, u64>> = BTreeMap::new();
+    let mut total_inputs = 0u64;
+    let mut seeds_accepted = 0u64;
 
-    let opts = || vkit::Opts::default().chunk(16384).watchdog(5.0).isolate();
+    let opts = || vkit::Opts::default().chunk(256).watchdog(5.0).isolate();
 
     for ep in &eps {
         if let Some(only) = &only {
@@ -469,15 +592,51 @@ pub fn run(run: &'static Run) {
                 format!("{} tokens {:?} up to {} tokens", ep.tokens.len(), ep.tokens.iter().map(|t| vkit::bytes::escape(t)).collect::<Vec<_>>(), max_len),
             );
             let toks: Vec<&[u8]> = ep.tokens.iter().map(Vec::as_slice).collect();
+            // tail depth: largest s with sum_{i<=s} k^i <= 4096
+            let k = toks.len();
+            let mut tail = 0usize;
+            let mut size = 1usize;
+            while tail < max_len {
+                let next = size * k + 1;
+                if next > 4096 {
+                    break;
+                }
+                size = next;
+                tail += 1;
+            }
+            let plen = max_len - tail;
+            let stats = Stats::default();
             run.sub_with(
                 ep.name,
                 opts(),
-                |emit| vkit::enumerate::strings(&toks, 0, max_len, |s| emit(AlphaCase { input: B(s.to_vec()) })),
+                |emit| {
+                    // strings shorter than the prefix length are single-input blocks; each prefix of exactly `plen` tokens carries all its tails
+                    if plen > 0 {
+                        vkit::enumerate::strings(&toks, 0, plen - 1, |s| emit(AlphaCase { prefix: B(s.to_vec()), tail: 0 }));
+                    }
+                    vkit::enumerate::strings(&toks, plen, plen, |s| emit(AlphaCase { prefix: B(s.to_vec()), tail }));
+                },
                 |c: &AlphaCase| -> Verdict {
-                    let input = wrap(ep.wrap, &c.input);
-                    evaluate(ep.name, ep.drive, &input, &ctx, false)
+                    let mut buf = c.prefix.0.clone();
+                    let plen = buf.len();
+                    run_block(run, ep.name, ep, &ctx, &stats, false, &mut |f| {
+                        vkit::enumerate::strings(&toks, 0, c.tail, |s| {
+                            buf.truncate(plen);
+                            buf.extend_from_slice(s);
+                            let input = wrap(ep.wrap, &buf);
+                            f(&input, &|| AlphaCase { prefix: B(buf.clone()), tail: 0 });
+                        })
+                    })
                 },
             );
+            let n = stats.inputs.load(Ordering::Relaxed);
+            if !run.is_replay() {
+                run.count(ep.name, n.saturating_sub(run.sub_evaluations(ep.name)));
+            }
+            total_inputs += n;
+            inputs_info.insert(ep.name.to_string(), n);
+            accepted_info.insert(ep.name.to_string(), stats.accepted.load(Ordering::Relaxed));
+            outcome_info.insert(ep.name.to_string(), stats.classes.lock().unwrap().clone());
         }
         // ---------- (b) mutations of valid seeds ----------
         let seeds: Vec<&seeds::Seed> = corpus.seeds.iter().filter(|s| ep.formats.contains(&s.format) && !(run.quick() && s.thorough_only)).collect();
@@ -488,13 +647,22 @@ pub fn run(run: &'static Run) {
         // the primary format of an entry point must accept its unmodified seeds (vacuity guard)
         let primary = ep.formats[0];
         let sub = format!("{}~seeds", ep.name);
+        let stats = Stats::default();
         run.sub_with(
             &sub,
-            opts().chunk(4096),
+            opts().chunk(64),
             |emit| {
                 for (name, s) in &by_name {
                     let h = format!("{:016x}", vkit::hash_of(&s.bytes));
-                    mutate::all(&s.bytes, true, |m| emit(MutCase { seed: name.clone(), seed_hash: h.clone(), m }));
+                    let mk = |kind, from, to| MutCase { seed: name.clone(), seed_hash: h.clone(), kind, from, to, value: None };
+                    emit(mk(Kind::Seed, 0, 0));
+                    for kind in [Kind::Trunc, Kind::Byte, Kind::U32] {
+                        let mut from = 0;
+                        while from < s.bytes.len() {
+                            emit(mk(kind, from, (from + MUT_BLOCK).min(s.bytes.len())));
+                            from += MUT_BLOCK;
+                        }
+                    }
                 }
             },
             |c: &MutCase| -> Verdict {
@@ -504,26 +672,51 @@ pub fn run(run: &'static Run) {
                 if format!("{:016x}", vkit::hash_of(&s.bytes)) != c.seed_hash {
                     vkit::machinery!("seed {} differs from the one the case was generated from (git output changed)", c.seed);
                 }
-                let input = mutate::apply(&s.bytes, &c.m);
-                let v = evaluate(ep.name, ep.drive, &input, &ctx, c.m != Mutation::None);
-                if c.m == Mutation::None && s.format == primary {
-                    if let Ok(p) = &v {
-                        if !p.class.contains(":ok") {
-                            vkit::machinery!("entry point {} rejects its own valid seed {} ({})", ep.name, c.seed, p.class);
-                        }
+                if c.kind == Kind::Seed && s.format == primary {
+                    match evaluate(ep, &s.bytes, &ctx, false) {
+                        Ok(class) if !class.starts_with("ok") => vkit::machinery!("entry point {} rejects its own valid seed {} ({class})", ep.name, c.seed),
+                        _ => {}
                     }
                 }
-                v
+                run_block(run, &sub, ep, &ctx, &stats, c.kind != Kind::Seed, &mut |f| {
+                    mutations_of(&s.bytes, c, |m| {
+                        let input = mutate::apply(&s.bytes, &m);
+                        f(&input, &|| {
+                            let (kind, at, value) = match m {
+                                Mutation::None => (Kind::Seed, 0, None),
+                                Mutation::Trunc(n) => (Kind::Trunc, n, None),
+                                Mutation::Byte(at, v) => (Kind::Byte, at, Some(u32::from(v))),
+                                Mutation::U32(at, v) => (Kind::U32, at, Some(v)),
+                            };
+                            MutCase { seed: c.seed.clone(), seed_hash: c.seed_hash.clone(), kind, from: at, to: at + 1, value }
+                        });
+                    })
+                })
             },
         );
+        let n = stats.inputs.load(Ordering::Relaxed);
+        if !run.is_replay() {
+            run.count(&sub, n.saturating_sub(run.sub_evaluations(&sub)));
+        }
+        total_inputs += n;
+        seeds_accepted += stats.classes.lock().unwrap().iter().filter(|(k, _)| k.starts_with("ok")).map(|(_, v)| *v).sum::<u64>();
+        inputs_info.insert(sub.clone(), n);
+        accepted_info.insert(sub.clone(), stats.accepted.load(Ordering::Relaxed));
+        outcome_info.insert(sub.clone(), stats.classes.lock().unwrap().clone());
     }
     run.cov("alphabets", &alpha_info);
+    run.cov("inputs", &inputs_info);
+    run.cov("inputs_total", total_inputs);
+    run.cov("inputs_accepted", &accepted_info);
+    run.cov("input_outcomes", &outcome_info);
     if only.is_none() && !run.is_replay() {
         for ep in &eps {
-            let n = run.sub_evaluations(ep.name) + run.sub_evaluations(&format!("{}~seeds", ep.name));
+            let n = inputs_info.get(ep.name).copied().unwrap_or(0) + inputs_info.get(&format!("{}~seeds", ep.name)).copied().unwrap_or(0);
             run.require(&format!("entry point {} was driven", ep.name), n > 0);
         }
-        run.require("sanitizer exercised on names that are not valid", run.outcome_count("ref-name-sanitize:ok-sanitized") > 0);
-        run.require("index with extensions decoded", run.outcome_count("index-file:ok") > 0);
+        let oc = |sub: &str, class: &str| outcome_info.get(sub).and_then(|m| m.get(class)).copied().unwrap_or(0);
+        run.require("sanitizer exercised on names that are not valid", oc("ref-name-sanitize", "ok-sanitized") > 0);
+        run.require("index with extensions decoded", oc("index-file~seeds", "ok") > 0);
+        run.require("mutated seeds were both accepted and rejected", seeds_accepted > 0);
     }
 }
